@@ -10,6 +10,7 @@ CONSTANTS
   MaxDup = 1
   MaxNet = 3
   MaxTime = 800
+  MaxForge = 0
   Writers = {1}
   SnOff <- SnOff00
   ClkOff = 0
